@@ -465,6 +465,8 @@ class Ops(object):
 
     # ------------------------------------------------------------------ attribute access
     def getattr(self, it, base, name):
+        if type(base).__name__ == 'CompiledRegex':
+            return Builtin('regex.' + name, lambda it2, a, k, _b=base, _n=name: self.world.builtins.regex_method(it2, _b, _n, a, k))
         if isinstance(base, Prod):
             if name == 'slice':
                 return [SliceSym(n) for n in base.names]
